@@ -108,12 +108,16 @@ def behaviourOf (j : Json) : Except String Behaviour := do
   | some "timeout" => return .exc .timeout
   | some _ => return .exc .other
   | none =>
-    let ct ← match (← j.getObjValAs? String "ct") with
-      | "json" => pure CType.json
-      | "sse" => pure CType.sse
-      | "other" => pure CType.other
-      | "absent" => pure CType.absent
-      | x => throw s!"bad ct {x}"
+    -- the Content-Type header itself when given ("cth": string or null), else its class
+    let ct ← match j.getObjVal? "cth" with
+      | .ok (.str h) => pure (ctypeOf (some h.toList))
+      | .ok .null => pure (ctypeOf none)
+      | _ => match (← j.getObjValAs? String "ct") with
+        | "json" => pure CType.json
+        | "sse" => pure CType.sse
+        | "other" => pure CType.other
+        | "absent" => pure CType.absent
+        | x => throw s!"bad ct {x}"
     return .resp {
       status := ← j.getObjValAs? Nat "status", ctype := ct, session := optStr j "sess",
       body := { text := (← j.getObjValAs? String "text").toList, utf8 := ← j.getObjValAs? Bool "utf8" } }
